@@ -205,7 +205,9 @@ static std::vector<std::pair<int, int>> rowsOf(const DT& t)
 static std::string runDT(int n, int mut, int use, bool indexed)
 {
 	DT t({ intCol, grpCol }), other({ intCol, grpCol });
-	if (indexed) { t.AddUniqueHashIndex(intCol); t.AddMultiHashIndex(grpCol); }
+	DT::UniqueHashIndex uhi = DT::UniqueHashIndex::empty; DT::MultiHashIndex mhi = DT::MultiHashIndex::empty;
+	if (indexed) { uhi = t.AddUniqueHashIndex(intCol); mhi = t.AddMultiHashIndex(grpCol); }
+	if (use >= 34 && !indexed) return "BAD index look-up uses need the indexed table";
 	for (int i = 0; i < n; ++i) t.AddRow(intCol = i, grpCol = i % 3);
 	other.AddRow(intCol = 1, grpCol = 1);
 	DT::RowReference ref = t[1];
@@ -214,17 +216,21 @@ static std::string runDT(int n, int mut, int use, bool indexed)
 	DT::Selection all = t.Select();
 	DT::RowReference foreign = other[0];
 	auto bounds = t.GetColumnItems(intCol);
+	// index look-up handles (grow round 4): multi-hash bounds (raw iterators on changeVersion, rows on removeVersion), unique-hash pointer
+	DT::RowHashBounds hb; DT::RowHashPointer hp;
+	if (indexed) { hb = t.FindByMultiHash(mhi, grpCol == 1); hp = t.FindByUniqueHash(uhi, intCol == 1); }
+	const size_t hbCount = hb.GetCount();
 	// removal / replacement of rows invalidates row references and selections; adding rows or updating items does not
-	bool rmod = false, either = false; const char* mname = "?";
+	bool rmod = false, either = false, cmod = false; const char* mname = "?";   // cmod: rows added / an indexed item updated (changeVersion only)
 	switch (mut)
 	{
 	case 0: mname = "none"; break;
 	case 15: mname = "Remove(filter-nothing)"; t.Remove([] (DT::ConstRowReference) { return false; }); either = true; break;   // conservative bump, see NOTES
-	case 1: mname = "AddRow"; t.AddRow(intCol = 1000, grpCol = 1); break;
+	case 1: mname = "AddRow"; t.AddRow(intCol = 1000, grpCol = 1); cmod = true; break;
 	case 2: mname = "Remove(row-reference)"; t.Remove(t[2]); rmod = true; break;
 	case 3: mname = "Remove(row-number)"; t.Remove(size_t(2)); rmod = true; break;
 	case 4: mname = "Remove(filter-some)"; t.Remove([] (DT::ConstRowReference r) { return r[intCol] == 3; }); rmod = true; break;
-	case 5: mname = "Update(item)"; t.Update(t[2], grpCol, 7); break;
+	case 5: mname = "Update(item)"; t.Update(t[2], grpCol, 7); cmod = true; break;
 	case 6: mname = "Clear"; t.Clear(); rmod = true; break;
 	case 7: mname = "Extract(row-reference)"; { auto row = t.Extract(t[2]); } rmod = true; break;
 	case 8: mname = "Update(row-number,new-row)"; t.Update(size_t(2), t.NewRow(intCol = 2000, grpCol = 1)); rmod = true; break;
@@ -278,8 +284,20 @@ static std::string runDT(int n, int mut, int use, bool indexed)
 	case 31: uname = "Insert(count,row)"; expect = 'A'; o = attempt([&] { t.Insert(t.GetCount(), t.NewRow(intCol = 7000)); }); before = rowsOf(t); break;
 	case 32: uname = "Insert(0,row)"; expect = 'A'; o = attempt([&] { t.Insert(0, t.NewRow(intCol = 7001)); }); before = rowsOf(t); break;
 	case 33: uname = "table[count-1]"; expect = t.GetCount() > 0 ? 'A' : 'R'; o = attempt([&] { volatile int x = t[t.GetCount() - 1][intCol]; (void)x; }); break;
+	// ---- index look-up handles: any change of the table (rows added / removed / replaced, indexed item updated) invalidates multi-hash
+	// bounds (their raws may have moved inside the index); the unique-hash pointer is a row reference (removal / replacement only)
+	case 34: uname = "read(hash-bounds[0])"; expect = (rmod || cmod) ? 'R' : 'A'; o = attempt([&] { volatile int x = hb[0][intCol]; (void)x; }); break;
+	case 35: uname = "iterate(hash-bounds)"; expect = (rmod || cmod) ? 'R' : 'A'; o = attempt([&] { long s = 0; for (auto r : hb) s += r[intCol]; (void)s; }); break;
+	case 36: uname = "read(unique-hash-pointer)"; expect = rmod ? 'R' : 'A'; o = attempt([&] { volatile int x = (*hp)[grpCol]; (void)x; }); break;
+	case 37: uname = "deref(hash-bounds-end)"; expect = 'R'; o = attempt([&] { auto e = hb.GetEnd(); volatile int x = (*e)[intCol]; (void)x; }); break;
+	case 38: uname = "hash-bounds-begin+=count+1"; expect = 'R'; o = attempt([&] { auto b = hb.GetBegin(); b += ptrdiff_t(hbCount + 1); }); break;
+	case 39: uname = "fresh-hash-bounds"; expect = 'A'; o = attempt([&] { auto f = t.FindByMultiHash(mhi, grpCol == 1); long s = 0; for (auto r : f) s += r[intCol]; if (f.GetCount() > 0) s += f[f.GetCount() - 1][intCol]; auto q = t.FindByUniqueHash(uhi, intCol == 0); if (q) s += (*q)[grpCol]; (void)s; }); break;
+	case 40: uname = "hash-bounds[count]"; expect = 'R'; o = attempt([&] { volatile int x = hb[hbCount][intCol]; (void)x; }); break;
+	case 42: uname = "hash-bounds-begin-=1"; expect = 'R'; o = attempt([&] { auto b = hb.GetBegin(); b += ptrdiff_t(-1); volatile int x = (*b)[intCol]; (void)x; }); break;
+	case 41: uname = "deref(empty-unique-hash-pointer)"; expect = 'R'; o = attempt([&] { auto q = t.FindByUniqueHash(uhi, intCol == 123456); volatile int x = (*q)[grpCol]; (void)x; }); break;
 	default: return "BAD unknown use";
 	}
+	if (either && use >= 34 && use <= 36) expect = '?';
 	if (either && (use <= 6 || use == 12 || (use >= 23 && use <= 30))) expect = '?';
 	bool unchanged = rowsOf(t) == before;
 	return verdict(expect, o, unchanged, std::string("dt mut=") + mname + " use=" + uname + (indexed ? " indexed" : ""));
